@@ -721,7 +721,8 @@ def run_combo(slot: str, cname: str, pos: str, meta: str, with_response: bool, n
     if n == 2:
         second = build_exchange("none", "benign", "alone", "generate", True, "c2")
         assert second is not None
-        exchanges.append(second)
+        # a network error (no response, no checks) FOLLOWS an exchange that has checks: per-exchange data must not carry over
+        exchanges = [second, first] if not with_response else [first, second]
     recorder = build_recorder("POST /b", exchanges)
     status = Status.FAILURE if any(ex["failing"] for ex in exchanges) else Status.ERROR
     obs = run_contents(recorder, status, PhaseName[_PHASE_FOR_META[meta]], first["argv"])
